@@ -93,6 +93,20 @@ def one(ctx, rng, k):
         return
     conv.segy_to_sgz(sub, r, q, bs, reduce_iops=ri, header_detection=mode)
     bw, br = open(w, 'rb').read(), open(r, 'rb').read()
+    # K: Model/Window.tStore (header slot of every window trace) vs the real windowed conversion: field picks[0] carries
+    # 7 + 3 * (source trace ordinal), so the stored array tells which source trace sits in which slot
+    m = MODEL.get('m')
+    if m is not None and mode in ('exhaustive', 'thorough') and not spec.Header(bw[:8192]).is2d:
+        try:
+            arrs = spec.read_footer_arrays(w)
+            if picks[0] in arrs:
+                ctx.stats['corr_requests'] += 1
+                real = ' '.join(str((int(v) - 7) // 3 if int(v) != 0 else -1) for v in np.asarray(arrs[picks[0]]).ravel())
+                ans = m.ask(f'window {n[1]} {a0} {a1} {b0} {b1}').split(' | ')[0]
+                if ans != real:
+                    ctx.corr_fail('Model.Window/tStore', f'window {n[1]} {a0} {a1} {b0} {b1}', ans[:160], real[:160], desc)
+        except Exception as e:  # noqa
+            ctx.corr_fail('Model.Window/tStore', f'window {n[1]} {a0} {a1} {b0} {b1}', 'readable footer', f'{type(e).__name__}: {e}', desc)
     if bw != br:
         probs = []
         hw, hr = spec.Header(bw[:8192]), spec.Header(br[:8192])
@@ -117,10 +131,17 @@ def one(ctx, rng, k):
             ctx.fail('windowed file: ' + p, desc)
 
 
+MODEL = {}
+
+
 def run(ctx):
     rng = gen.rng_for(ctx.seed, 'c11')
-    for k in range(48 if ctx.quick else 900):
-        one(ctx, rng, k)
+    MODEL['m'] = core.Model()
+    try:
+        for k in range(48 if ctx.quick else 900):
+            one(ctx, rng, k)
+    finally:
+        MODEL.pop('m').close()
 
 
 def replay(ctx, rp):
